@@ -61,6 +61,7 @@ struct HNode {
 
 unsafe impl RcObject for HNode {
     fn pop_edges(&mut self, out: &mut Vec<Rc<Self>>) {
+        crate::sched::inner_yield();
         out.push(self.next.take())
     }
 }
@@ -201,6 +202,7 @@ struct QNode {
 }
 unsafe impl RcObject for QNode {
     fn pop_edges(&mut self, out: &mut Vec<Rc<Self>>) {
+        crate::sched::inner_yield();
         out.push(self.next.take())
     }
 }
